@@ -7,6 +7,7 @@ R4   every committed change of a cell position is followed by the update of both
 RC   row reordering evaluates each candidate on a model that reflects the candidate (y model updated for the
      tentatively assigned row, x model for every cell of the candidate order) and keeps the best or restores
 AP   the shift LP models every pin of every net it touches (no pin skipped)
+PC   the position committed by insert/swap is computed before the cell is unplaced, like the probe did
 DF   derived-state freshness: pin offsets snapshotted by the incremental model must be refreshed when the
      optimiser changes a cell's orientation  (KNOWN FINDING on the pinned tree)
 """
@@ -43,6 +44,7 @@ def run(ctx, rep, tier):
     rep.rule("R4", "committed position changes are followed by model updates for the same cell", 4)
     rep.rule("RC", "reordering evaluates candidates on an up-to-date model; keeps best or restores", 4)
     rep.rule("AP", "shift LP models every pin of the nets it touches", 1)
+    rep.rule("PC", "committed position computed in the state the probe evaluated (before unplace)", 2)
     rep.rule("DF", "snapshotted pin offsets refreshed when orientation changes", 1)
     check_moves(ctx, rep)
     check_probes(ctx, rep)
@@ -50,6 +52,30 @@ def run(ctx, rep, tier):
     check_reordering(ctx, rep)
     check_allpins(ctx, rep)
     check_fresh(ctx, rep)
+    check_probe_commit(ctx, rep, "PC")
+
+
+def check_probe_commit(ctx, rep, rid):
+    """The position a move is committed at must be computed in the same state in which the probe evaluated it:
+    positionOnInsert / positionsOnSwap are evaluated before the cell is unplaced (the probes call them on the placed state)."""
+    prog = ctx.prog
+    for q, posfn in (("DetailedPlacement::insert", "positionOnInsert"), ("DetailedPlacement::swap", "positionsOnSwap")):
+        f = prog.func1(CQ + q)
+        g = cfg_of(f)
+        pos = calls_to(f, CQ + "DetailedPlacement::" + posfn)
+        unp = calls_to(f, CQ + "DetailedPlacement::unplace")
+        if not pos or not unp:
+            rep.unknown(rid, f.decl, f, q, "%s / unplace call not found" % posfn)
+            continue
+        pn = g.node_for(pos[0])
+        late = [u for u in unp if not (g.dominates(pn, g.node_for(u)) and pn is not g.node_for(u))]
+        if late:
+            rep.violation(rid, late[0], f, "%s computes the committed position after unplacing" % q.split("::")[-1],
+                          "the optimiser evaluated the move with %s on the placed state; computing it again after unplace() gives a different gap, "
+                          "so a move accepted for one position is committed at another" % posfn,
+                          key="%s|position computed after unplace" % f.short)
+        else:
+            rep.holds(rid, pos[0], f, "%s: %s evaluated before any unplace()" % (q.split("::")[-1], posfn))
 
 
 def check_moves(ctx, rep):
